@@ -14,10 +14,9 @@ matrix = json.load(open(mpath)) if os.path.exists(mpath) else {}
 scratch = "/tmp/xm-repo-%d" % os.getpid()
 for sd in seeds:
     shutil.rmtree(scratch, ignore_errors=True)
-    os.makedirs(scratch + "/utest")
-    for sub in ("src", "include"):
-        shutil.copytree("/repo/" + sub, scratch + "/" + sub)
-    shutil.copytree("/repo/utest/test_data", scratch + "/utest/test_data")
+    os.makedirs(scratch)
+    # the committed tree, not the working tree: /repo may have a seeded patch applied by tools/seedtest.py at this moment
+    subprocess.run("git -C /repo archive HEAD src include utest/test_data | tar -x -C %s" % scratch, shell=True, check=True)
     r = subprocess.run("cd %s && patch -p1 -s < %s/%s/patch.diff" % (scratch, SEEDED, sd), shell=True, stdout=subprocess.PIPE, stderr=subprocess.STDOUT, universal_newlines=True)
     if r.returncode != 0:
         print(sd, "patch failed", r.stdout); continue
@@ -28,7 +27,7 @@ for sd in seeds:
         t0 = time.time()
         try:
             rr = subprocess.run("cd %s && ./check %s --tier quick" % (HERE, cid), shell=True, stdout=subprocess.PIPE, stderr=subprocess.STDOUT, universal_newlines=True,
-                                env=dict(os.environ, VERIF_REPO=scratch), timeout=1500)
+                                env=dict(os.environ, VERIF_REPO=scratch, VERIF_SCALE=os.environ.get("XM_SCALE", "0.25")), timeout=1500)
             rc = rr.returncode
         except subprocess.TimeoutExpired:
             rc = -9
